@@ -1,4 +1,5 @@
 import PbVerif.Model.Proto
+import PbVerif.Drv.C01
 import PbVerif.Drv.C02
 import PbVerif.Drv.C03
 import PbVerif.Drv.C04
@@ -20,7 +21,7 @@ import PbVerif.Drv.C19
 import PbVerif.Drv.C20
 open PbVerif
 
-def handlers : List (List String → Option String) := [Drv.C02.handle, Drv.C03.handle, Drv.C04.handle, Drv.C05.handle, Drv.C06.handle, Drv.C07.handle, Drv.C10.handle, Drv.C08.handle, Drv.C09.handle, Drv.C11.handle, Drv.C12.handle, Drv.C13.handle, Drv.C14.handle, Drv.C15.handle, Drv.C16.handle, Drv.C17.handle, Drv.C18.handle, Drv.C19.handle, Drv.C20.handle]
+def handlers : List (List String → Option String) := [Drv.C01.handle, Drv.C02.handle, Drv.C03.handle, Drv.C04.handle, Drv.C05.handle, Drv.C06.handle, Drv.C07.handle, Drv.C10.handle, Drv.C08.handle, Drv.C09.handle, Drv.C11.handle, Drv.C12.handle, Drv.C13.handle, Drv.C14.handle, Drv.C15.handle, Drv.C16.handle, Drv.C17.handle, Drv.C18.handle, Drv.C19.handle, Drv.C20.handle]
 
 def step (line : String) : String :=
   let toks := line.trimAscii.toString.splitOn " "
